@@ -132,6 +132,74 @@ impl PathAndQueryWithSkipped {
     //@|     assert(enumerates(es, qm));
     //@|     assert(exists|e: Seq<(String, String)>| #[trigger] enumerates(e, hash_query@) && query_string@ == render(e, mk, false) && skipped_query_params@ == render(e, mk, true)); }
 }
+// ---- rule side of the same canonical form: Request::build_sorted_query (used by api::Rule::path_and_query for the rule's query)
+// every parameter followed by '&' (the loop of build_sorted_query before the final pop)
+pub open spec fn render_amp(es: Seq<(String, String)>) -> Seq<char>
+    decreases es.len()
+{ if es.len() == 0 { Seq::empty() } else { render_amp(es.drop_last()) + param(es.last().0, es.last().1) + seq!['&'] } }
+pub open spec fn no_empty_param(es: Seq<(String, String)>) -> bool { forall|i: int| 0 <= i < es.len() ==> param((#[trigger] es[i]).0, es[i].1).len() > 0 }
+pub proof fn lemma_render_amp(es: Seq<(String, String)>)
+    requires no_empty_param(es),
+    ensures es.len() > 0 ==> render(es, Set::<String>::empty(), false).len() > 0,
+        es.len() > 0 ==> render_amp(es).len() > 0 && render_amp(es).last() == '&' && render_amp(es).drop_last() == render(es, Set::<String>::empty(), false),
+        es.len() == 0 ==> render_amp(es).len() == 0 && render(es, Set::<String>::empty(), false).len() == 0,
+    decreases es.len(),
+{
+    if es.len() > 0 {
+        let d = es.drop_last(); let e = es.last(); let mk = Set::<String>::empty();
+        assert(no_empty_param(d)) by { assert forall|i: int| 0 <= i < d.len() implies param((#[trigger] d[i]).0, d[i].1).len() > 0 by { assert(d[i] == es[i]); } }
+        lemma_render_amp(d);
+        let p = render(d, mk, false);
+        assert(param(e.0, e.1).len() > 0) by { assert(es[es.len() - 1] == e); }
+        assert(mk.contains(e.0) == false);
+        if d.len() > 0 {
+            assert(render_amp(d).drop_last() == p);
+            assert(render_amp(d) =~= p + seq!['&']);
+            assert(p.len() > 0 || p.len() == 0);
+            assert((render_amp(d) + param(e.0, e.1) + seq!['&']).drop_last() =~= p + seq!['&'] + param(e.0, e.1));
+            if p.len() == 0 { assert(p + seq!['&'] + param(e.0, e.1) =~= seq!['&'] + param(e.0, e.1)); }
+        } else {
+            assert((render_amp(d) + param(e.0, e.1) + seq!['&']).drop_last() =~= param(e.0, e.1));
+        }
+    }
+}
+pub open spec fn amp_ok(es: Seq<(String, String)>) -> bool {
+    (es.len() > 0 ==> render(es, Set::<String>::empty(), false).len() > 0 && render_amp(es).len() > 0 && render_amp(es).last() == '&' && render_amp(es).drop_last() == render(es, Set::<String>::empty(), false))
+    && (es.len() == 0 ==> render_amp(es).len() == 0 && render(es, Set::<String>::empty(), false).len() == 0)
+}
+// (the iterator's remaining() is prophetic in this vstd and cannot be passed to a lemma: quantified form)
+pub proof fn lemma_render_amp_all()
+    ensures forall|es: Seq<(String, String)>| no_empty_param(es) ==> #[trigger] amp_ok(es),
+{
+    assert forall|es: Seq<(String, String)>| no_empty_param(es) implies #[trigger] amp_ok(es) by { lemma_render_amp(es); }
+}
+pub struct Request { }
+impl Request {
+    // the rule's query in the SAME canonical form as the request side: the decoded parameters in key order, `key` or `key=value`, joined by '&'
+    // (a parameter whose key and value are both empty renders as nothing; the two sides then differ by a stray '&' — excluded here)
+    //@@ fn src/http/request.rs :: impl Request / fn build_sorted_query -> r
+    //@| ensures exists|es: Seq<(String, String)>| #[trigger] enumerates(es, qmap(query@)) && (no_empty_param(es) ==> match r { Some(q) => q@ == render(es, Set::<String>::empty(), false) && q@.len() > 0, None => render(es, Set::<String>::empty(), false).len() == 0 }),
+    //@| outline `parse_query(query.as_bytes()).into_owned().collect()` => `outl_parse_query(query)`
+    //@| outline `utf8_percent_encode(key, QUERY_ENCODE_SET).to_string()` => `outl_enc_q(key)`
+    //@| outline `utf8_percent_encode(value, QUERY_ENCODE_SET).to_string()` => `outl_enc_q(value)`
+    //@| opt r5:0
+    //@| opt r6:0
+    //@| attr #[verifier::loop_isolation(false)]
+    //@| entry broadcast use group_hash_axioms; broadcast use axiom_string_key_model; broadcast use vstd::std_specs::btree::group_btree_axioms; broadcast use axiom_string_cmp;
+    //@|     proof { axiom_string_ext(); lit_empty(); }
+    //@| loopbefore 0: let ghost qm = hash_query@; let ghost es = ents(vf_it0_rem0);
+    //@| loop 0: invariant 0 <= vf_it0_idx <= vf_it0_rem0.len(), vf_it0.remaining() == vf_it0_rem0.skip(vf_it0_idx), vf_it0_rem0.len() == qm.len(), es == ents(vf_it0_rem0),
+    //@|     query_string@ == render_amp(es.take(vf_it0_idx)),
+    //@|     decreases qm.len() - vf_it0_idx,
+    //@| loophead 0: let ghost k = vf_it0_idx - 1; let ghost q0 = query_string@;
+    //@|     proof { assert(es[k] == (*key, *value)); assert(es.take(k + 1).drop_last() =~= es.take(k)); assert(es.take(k + 1).last() == es[k]); }
+    //@| looptail 0: proof { assert(query_string@ =~= q0 + param(*key, *value) + seq!['&']); }
+    //@| loopend 0: proof { assert(es.take(es.len() as int) =~= es);
+    //@|     assert(es.len() == qm.len());
+    //@|     assert forall|i: int| 0 <= i < es.len() implies qm.contains_key(#[trigger] es[i].0) && qm[es[i].0] == es[i].1 by { assert(es[i] == (*vf_it0_rem0[i].0, *vf_it0_rem0[i].1)); }
+    //@|     assert forall|i: int, j: int| 0 <= i < j < es.len() implies (#[trigger] es[i]).0 != (#[trigger] es[j]).0 by { assert(es[i].0 == *vf_it0_rem0[i].0 && es[j].0 == *vf_it0_rem0[j].0); }
+    //@|     assert(enumerates(es, qm)); lemma_render_amp_all(); assert(no_empty_param(es) ==> amp_ok(es)); }
+}
 pub open spec fn ents(rem: Seq<(&String, &String)>) -> Seq<(String, String)> { Seq::new(rem.len(), |i: int| (*rem[i].0, *rem[i].1)) }
 
 //@@ strlits
